@@ -23,7 +23,7 @@ UPD = ["upd.args", "upd.constrained", "upd.kept", "upd.weight", "upd.discard", "
 ALLP = ["D0", "SOne", "SChain", "SIndep", "SNest", "SLit", "S2", "VmD", "VmS", "VmAx", "VmAx2", "VmMask", "Rep", "Rep3",
         "Sc1", "Sc2", "Sc3", "ScSw", "SwXY", "SwSame", "Sw3", "SSw", "SVm", "Msk", "MskD", "Dm", "Dm2", "DmMap", "DmCon",
         "DmSc", "OrE", "MixE", "Acc", "Red", "It", "ItF", "MIt", "MItF", "MItF1"]
-FAST = ["D0", "SOne", "SChain", "SIndep", "SNest", "SLit", "S2", "SDm", "MskSw", "VmSw", "VmD", "VmS", "VmAx", "VmAx2", "VmMask", "Rep", "Rep3",
+FAST = ["D0", "SOne", "SChain", "SIndep", "SNest", "SLit", "S2", "SDm", "MskSw", "VmSw", "SwN", "VmD", "VmS", "VmAx", "VmAx2", "VmMask", "Rep", "Rep3",
         "SwXY", "SwSame", "Sw3", "SSw", "SVm", "Msk", "MskD", "Dm", "Dm2", "DmMap", "DmCon", "OrE", "MixE"]
 SLOW = ["Sc1", "Sc2", "Sc3", "ScSw", "DmSc", "Acc", "Red", "It", "ItF"]    # masked-iterate programs belong to C16 only
 EAGER = ["Clo1", "Clo2", "Clo0", "CloP", "CloK", "D0", "SOne", "SChain", "SIndep", "SNest", "SLit", "S2", "SDup", "Dm", "Dm2", "DmMap", "DmCon", "Msk", "MskD"]
@@ -77,7 +77,7 @@ PROFILES = {
     "C12": dict(own=CORE,
                 gens=[dict(ids=["Sc1", "Sc2", "Sc3", "DmSc", "Acc", "Red", "It", "ItF"], first=["simulate", "generate"], edits=["update", "updateargs", "regenerate", "indexupdate", "indexregen"], depth=2, n=(64, 900))]),
     "C13": dict(own=CORE,
-                gens=[dict(ids=["SwXY", "SwSame", "Sw3", "SSw", "OrE", "MixE", "MskSw", "VmSw"], first=["simulate", "generate"], edits=["update", "update", "updateargs", "project"], depth=3, n=(128, 2400)),
+                gens=[dict(ids=["SwXY", "SwSame", "Sw3", "SwN", "SSw", "OrE", "MixE", "MskSw", "VmSw"], first=["simulate", "generate"], edits=["update", "update", "updateargs", "project"], depth=3, n=(128, 2400)),
                       dict(ids=["SwXY", "SwSame"], ids_thorough=["SwXY", "SwSame", "OrE", "MixE", "Sw3"], first=["generate"], edits=[], depth=0, n=(0, 0), sub=True)]),
     "C14": dict(own=CORE,
                 gens=[dict(ids=["Msk", "MskD", "VmMask", "MskSw"], first=["simulate", "generate"], edits=["update", "updateargs", "updateargs", "updatemask"], depth=3, n=(128, 2400))]),
